@@ -47,6 +47,10 @@ void AsyncSink::onDisable()
 {
     async_pipe_.cleanup();
     is_pipe_inited_ = false;
+
+    //! a write error may have left an unwritten tail in cache_: nothing else will flush it, try once more
+    if (!cache_.empty())
+        flush();
 }
 
 void AsyncSink::onLogFrontEnd(const LogContent *content)
